@@ -101,11 +101,19 @@ class Monitor(object):
 
     def mech(self, fn, exc, gender, event, age, dom):
         t = type(exc).__name__
+        import re as _re
+        if isinstance(event, str) and _re.match(r'^\d+(\.\d+)?m$', event):
+            # one mechanism whatever the gender spelling or age: PAT_ROAD knows the mile suffix as a capital M only
+            return '%s:raise:%s:lower-case-m-of-a-mile-road-code(read-as-metres)' % (fn, t)
         tags = []
         if isinstance(gender, str) and gender not in ('m', 'f'):
             tags.append('gender-spelling-other-than-m-f')
         if event != event.upper():
-            tags.append('lower-case-event')
+            import re
+            if re.match(r'^\d+(\.\d+)?m$', event):
+                tags.append('lower-case-m-of-a-mile-road-code(read-as-metres)')
+            else:
+                tags.append('lower-case-event')
         if dom[0] == 'in' and age is not None and age == dom[2]:
             tags.append('age-equals-first-non-null-column')
         return '%s:raise:%s:%s' % (fn, t, '+'.join(tags) or 'plain')
@@ -193,8 +201,10 @@ class Monitor(object):
             return
         gr = out.value
         # consistency with the values the public accessors return (canonical spelling)
-        f = attach.call(attach.original(self.a.wma_age_factor), g, age, event.upper(), year=year)
-        b = attach.call(attach.original(self.a.wma_world_best), g, event.upper(), year=year)
+        # the same query, the same year argument (verbatim: int or text), asked of the two accessors
+        yraw = kwargs.get('year', args[5] if len(args) > 5 else '2023')
+        f = attach.call(attach.original(self.a.wma_age_factor), g, age, event.upper(), year=yraw)
+        b = attach.call(attach.original(self.a.wma_world_best), g, event.upper(), year=yraw)
         if not (f.ok and b.ok):
             ctx.count('unjudged.grade-accessors-raise')
             return
@@ -257,15 +267,18 @@ class Monitor(object):
         self.spelling('athlon-factor', 'athlons', g, event, age, None, out.value, case)
 
 
-def event_spellings(mon, ev):
+def event_spellings(mon, ev, rnd=None):
+    """the tabulated (upper-case) code, its lower-case form, a capitalised form and a seeded mixed-case form - every code
+    "differing only in letter case".  They are NOT filtered through the library's own checker: which re-casings of a
+    tabulated event are valid is part of what is being judged."""
     out = [ev]
-    low = ev.lower()
-    if low != ev and mon.check(low) is not None:
-        try:
-            mon.kind(low)
-            out.append(low)
-        except Exception:
-            pass
+    for v in (ev.lower(), ev.capitalize(), ev[:1].lower() + ev[1:].upper() if len(ev) > 1 else ev.lower()):
+        if v not in out:
+            out.append(v)
+    if rnd is not None and any(c.isalpha() for c in ev):
+        v = ''.join(c.lower() if rnd.random() < 0.5 else c.upper() for c in ev)
+        if v not in out:
+            out.append(v)
     return out
 
 
@@ -304,7 +317,7 @@ def run_shard(ctx, spec):
     mine = [j for k, j in enumerate(jobs) if (k // 2) % spec['n'] == spec['i']] if True else jobs
     for (y, g, ev) in mine:
         if y == 'athlons':
-            evs = [ev, ev.lower()] + (['80H', '100H', '110H', '80h', '300H', '400H', '200H'] if ev in ('SH', 'LH') else [])
+            evs = event_spellings(mon, ev, rnd) + (['80H', '100H', '110H', '80h', '300H', '400H', '200H', '300h'] if ev in ('SH', 'LH') else [])
             ages = list(range(0, 131)) + [34.5, 35.5, 39.99, 112.5] if ctx.tier == 'thorough' else \
                 [0, 1, 29, 30, 34, 34.5, 35, 36, 39, 40, 64.5, 65, 99, 100, 104, 105, 109, 110, 111, 114, 115, 120, 130]
             for e2 in evs:
@@ -324,7 +337,15 @@ def run_shard(ctx, spec):
         first, last = ages_l[nn[0]], ages_l[-1]
         best = row[2]
         timed = mon.kind(ev) in ('road', 'track')
-        for e2 in event_spellings(mon, ev):
+        if (g, ev) not in getattr(mon, '_stryear_done', set()):
+            # the year argument as text: whichever table the wrappers choose for it, grade, best and factor must agree
+            mon._stryear_done = getattr(mon, '_stryear_done', set()) | {(g, ev)}
+            for ytxt in ('2015', '2023'):
+                for age in (first, 50, last):
+                    for m in (0.9, 1.0, 1.2):
+                        attach.call(a.wma_age_grade, g, age, ev, best * m, year=ytxt)
+                        ctx.count('eval.text-year-query')
+        for e2 in event_spellings(mon, ev, rnd):
             for gs in GENDERS[g]:
                 attach.call(a.wma_world_best, gs, e2, year=y)
                 for age in ages_for(first, last, ctx.tier):
